@@ -1,5 +1,5 @@
 (* C08 lemmas, part 8: sequences of round trips for any code configuration that contains the four applied
-   repairs -- in particular cfg_next (proposed C08-dict-instance-exact: a component without free parameters is
+   repairs -- in particular cfg_fixed (with 0b56c35, C08-dict-instance-exact: a component without free parameters is
    written as "instance" only when that is exact), where components with tuple / extra attributes are covered. *)
 From Coq Require Import List String Bool Arith PeanoNat Lia.
 From PAFC01 Require Import ModelTree Proofs2.
